@@ -230,6 +230,7 @@ def fault_part(ck):
                 step = max(1, n_bytes // 4000)
                 byte_points = list(range(0, n_bytes, step)) + [n_bytes - 1]
             points = [("op", i) for i in op_points] + [("byte", b) for b in byte_points]
+            after_crash_saves = 0
             for kind, v in points:
                 # restore the old checkpoint under the final name, then crash during the new save
                 shutil.copyfile(old_copy, final)
@@ -256,6 +257,17 @@ def fault_part(ck):
                     ck.violation("crash:mixture", f"after a crash at {kind} {v} the final name holds neither the old nor the new snapshot", {"conf": repr(conf), "point": [kind, v]})
                 if not crashed and got != new_file:
                     ck.violation("save:not-new", f"an uncrashed save ({kind} {v} beyond the end) did not install the new snapshot", {"conf": repr(conf), "point": [kind, v]})
+                if crashed and covered % 7 == 0:
+                    # the process restarts and saves again into the same directory, with whatever the crashed save left behind:
+                    # "saving works" also then
+                    try:
+                        s.save_state(final)
+                        if file_snapshot(final) != new_file:
+                            ck.violation("save:after-crash-not-new", f"the save following a crash at {kind} {v} did not install the new snapshot", {"conf": repr(conf), "point": [kind, v]})
+                    except Exception as ex:
+                        ck.violation("save:after-crash-raised", f"the save following a crash at {kind} {v} (left-overs of the crashed save still present) raised {ex!r}",
+                                     {"conf": repr(conf), "point": [kind, v]})
+                    after_crash_saves += 1
             # a crash must also never break a FIRST save (no previous file): final absent or complete
             first = os.path.join(d, "first.state")
             for kind, v in points[:: max(1, len(points) // 25)]:
@@ -266,6 +278,9 @@ def fault_part(ck):
                         s.save_state(first)
                 except _Crash:
                     pass
+                except Exception as ex:
+                    ck.violation("save:after-crash-raised", f"a first save at {kind} {v} following an earlier crashed save raised {ex!r}", {"conf": repr(conf), "point": [kind, v]})
+                    break
                 covered += 1
                 if os.path.exists(first):
                     try:
